@@ -24,6 +24,19 @@ class ReadAfterEOF(BaseException):
     """The client kept reading after EOF (monitor exception)."""
 
 
+def call_id_of(data: bytes, default: int = 1) -> int:
+    """call id of the (last) PDU the client just wrote: a conforming server echoes it in its reply."""
+    data = bytes(data)
+    off, cid = 0, default
+    while off + 16 <= len(data):
+        cid = int.from_bytes(data[off + 12 : off + 16], "little")
+        fl = int.from_bytes(data[off + 8 : off + 10], "little")
+        if fl < 16:
+            break
+        off += fl
+    return cid
+
+
 class FakeSocket:
     """handler(data_sent) -> list of chunks to deliver (None/[] = nothing); after the scripted
     chunks are exhausted every read returns EOF and is counted."""
